@@ -1,9 +1,9 @@
 import TakVerif.Impl.Position
-import TakVerif.Generated.FuncsTak
+import TakVerif.Generated.FuncsOver
 
 /-! Tie #1 for C02 (game end): the decision logic of `tak/game.go` `ToMove`, `countFlats`, `flatsWinner` and the
 reserve / full-board test of `GameOver`, and `bitboard.Flood`, are regenerated from the source on every run
-(`Generated/FuncsTak.lean`); the hand model of `Impl/Position.lean`, `Impl/Bitboard.lean` is proved equal to them.
+(`Generated/FuncsTak.lean`, `FuncsOver.lean`); the hand model of `Impl/Position.lean`, `Impl/Bitboard.lean` is proved equal to them.
 `Position` is not translatable as a whole (slices): the regenerated functions take exactly the fields they read as
 parameters (`p_White`, `p_cfg_c_Mask` …); `hasRoad()` (a loop over the group slices) enters `GameOver` as a parameter
 and stays a hand-written mirror.  `bitboard.Popcount` is the `math/bits` intrinsic: `Gen.popcount64` is a fixed
